@@ -11,7 +11,7 @@ CHECKER = "lake build KalignModel.Props.C05All && lake env lean KalignModel/Audi
 
 def theorems():
     out = []
-    for f in ("C05.theorems", "C05Pipeline.theorems"):
+    for f in ("C05.theorems", "C05Pipeline.theorems", "SoftFloat.theorems", "C05PipelineSoft.theorems", "C05PipelineSoftL.theorems"):
         p = os.path.join(C.LEAN, "KalignModel", "Props", f)
         if os.path.exists(p):
             out += [l.strip() for l in open(p) if l.strip() and not l.startswith("#")]
@@ -137,6 +137,20 @@ def run(ctx):
         ctx.count("unit_ops_pipeline_extreme_params", len(xl))
         ctx.evaluations += len(xl)
         diffs += d2
+    # the software binary32 the monitor theorems are about: bit-for-bit against C `float` (edge-rich operand pairs), and the whole pipeline with
+    # every DP score computed in it against the real kalign()
+    fl = C.gen_ops("gen_f32.py", ctx.seed, 20000 if ctx.quick else 300000)
+    cf = os.path.join(C.CORPUS, "sliceW_f32.ops")
+    if os.path.exists(cf):
+        fl += [l.strip() for l in open(cf) if l.strip()][:: (10 if ctx.quick else 1)]
+    diffs += C.unit_correspondence(ctx, kvh, fl, "softfloat")
+    sl = [l.replace("kalign_sys ", "kalign_sys_soft ", 1) for l in C.gen_ops("gen_pipe.py", 7 * ctx.seed + 3, 1)]
+    if ctx.quick:
+        sl = sl[::3]
+    d3 = C.correspond(kvh, sl, chunks=C.NCPU, timeout=3000)
+    ctx.count("unit_ops_pipeline_softfloat", len(sl))
+    ctx.evaluations += len(sl)
+    diffs += d3
     sc = C.scratch()
     jobs = []
     N = 400 if ctx.quick else 6000
